@@ -616,8 +616,15 @@ def _kern(sh, rec):
             gen = spne.gen_diffusion_flux_pyst_kernel_2d if d == 2 else spne.gen_diffusion_flux_pyst_kernel_3d
             k = gen(real_t=real_t, num_threads=2, reset_ghost_zone=reset)
             kv = gen(real_t=real_t, num_threads=2, reset_ghost_zone=reset, field_type="vector") if d == 3 else None
+            prev_shape = None
             for rep in range(nrep):
                 shape = util.shape2d(rng, 7, 50) if d == 2 else util.shape3d(rng, 7, 20)
+                if rep % 2 == 1 and prev_shape is not None and tuple(prev_shape[::-1]) != tuple(prev_shape):
+                    # the same kernel object on a grid with the SAME number of cells but reversed axes: anything the wrapper caches
+                    # per call keyed by the size instead of the shape (index tables, ring masks) goes stale here
+                    shape = tuple(prev_shape[::-1])
+                    rec.count("kern_calls_same_size_reversed_shape")
+                prev_shape = shape
                 m = int(rng.integers(2, 3 + (min(shape) - 6) // 2))
                 if min(shape) - 2 * m < 1:
                     m = 2
